@@ -28,12 +28,15 @@
 ! Functions are designed to be compiled with f2py and called from Python
       subroutine ampld(axi, rat, lam, mrr, mri, eps, np, ndgs, 
      &                      alpha, beta, thet0, thet, phi0, phi, nang,
-     &                      s11, s12, s21, s22)
+     &                      s11, s12, s21, s22, ierr)
 c parameters:
       integer, parameter :: dp = selected_real_kind(15, 307)
 c variables:
       integer, intent(in) :: np, ndgs, nang
       integer :: maxi
+c ierr is 0 on success; otherwise the reason the calculation was
+c abandoned (see AMP_SCAT_MATRIX) and s11..s22 are not meaningful
+      integer, intent(out) :: ierr
       real(kind=dp), intent(in) :: lam, mrr, mri, eps
       real(kind=dp), intent(in) :: axi, rat, alpha, beta, thet0, phi0
       real(kind=dp), dimension(nang),intent(in) :: thet, phi
@@ -42,12 +45,14 @@ c variables:
 C Call amp_scat_matrix on the first angle to calc the T-matrix
       call amp_scat_matrix (axi,rat,lam,mrr,mri,eps,np,ndgs,alpha,
      &                      beta,thet0,thet(1),phi0,phi(1),
-     &                      s11(1),s12(1),s21(1),s22(1),maxi)
+     &                      s11(1),s12(1),s21(1),s22(1),maxi,ierr)
+      if (ierr /= 0) return
 C loop over the rest of the angles. T-matrix is a global (common)
       if (nang > 1) then
          do j=2, nang
             call ampl (maxi,lam,thet0,thet(j),phi0,phi(j),alpha,beta,
-     &                 s11(j),s12(j),s21(j),s22(j))
+     &                 s11(j),s12(j),s21(j),s22(j),ierr)
+            if (ierr /= 0) return
          end do
       end if
       return
